@@ -97,6 +97,24 @@ ROUND3 = {
 }
 for _k, _v in ROUND3.items():
     CHECKS[_k]["text"] += _v
+ROUND4 = {
+ "C01": " Round 4: C01.tx-dup (Transaction::validate contains a test that can tell a repeated input key; found a dead Vec-length test on the pinned tree, repaired) and C01.utxo-lookup (only the Fee transaction skips the per-input ledger lookup); cross-lists C03.marker-by-hash.",
+ "C03": " Round 4: C03.marker-by-hash - a ring slot's longest-chain marker is set to the position of the block's hash (or cleared), ring positions are not computed with wrapping arithmetic.",
+ "C04": " Round 4: cross-lists C05.gate (a chain-level refusal must come before the first unwind).",
+ "C05": " Round 4: cross-lists C03.lockstep (the shared ancestor of two chains is found through in_longest_chain).",
+ "C06": " Round 4: C06.merkle-covers-all - every carried transaction contributes at least one leaf; the verify_block rule is a must-pass over the equal edges.",
+ "C07": " Round 4: C07.fee-slip-index - on every path of the construction region (enumerated, integer counters tracked) each output of the expected fee transaction carries its position as slip_index.",
+ "C08": " Round 4: the per-hop closure of validate_routing_path cannot accept a hop without the true edge of the hop-signature verification.",
+ "C09": " Round 4: C09.no-field-skipped (Ok only after each conditionally assigned wire field was decoded or its own presence test said nothing is left) and C09.read-before-decode (no decision on a field of the value under construction before it is assigned from the input).",
+ "C10": " Round 4: arithmetic checked in u8/u16/u32 on non-constant values is an obligation (must be shown not to overflow); flag facts have both polarities.",
+ "C11": " Round 4: C11.sized-alloc - capacities requested in handler-reachable bodies are constants or linear in lengths of existing collections.",
+ "C13": " Round 4: cross-lists C01.utxo-lookup (a rebroadcast consumes the expiring output only if its input is looked up in the ledger).",
+ "C14": " Round 4: a wholesale release (utxo_map.clear/drain) is allowed only where the whole pool has already been taken out.",
+ "C17": " Round 4: issued challenges are fresh on every path (no definition reaching the stored value reads the outstanding challenge); random sources are closed under small helpers.",
+ "C18": " Round 4: C18.placeholder-leaf - the field a receiver recomputes a placeholder's merkle leaf from is filled with the omitted transaction's leaf hash and is on the wire (reports the pinned tree: known finding with an exhaustive witness); cross-lists the C09 codec rules for the wire round trip.",
+}
+for _k, _v in ROUND4.items():
+    CHECKS[_k]["text"] += _v
 PENDING = "check not built yet in this round (planned in DESIGN.md §4); not claimed until it lands"
 
 def main():
